@@ -67,6 +67,8 @@ Combos(nested) ==
   ELSE UNION {{[kinds |-> <<k>>, layout |-> lay, opt |-> Opt0] : lay \in LayoutsOf(k)} : k \in Kinds}
        \cup {[kinds |-> <<k>>, layout |-> "inline", opt |-> o] : k \in {"block", "line"}, o \in OptionSet \ {Opt0}}
        \cup {[kinds |-> <<k>>, layout |-> "own-line", opt |-> o] : k \in {"block", "line"}, o \in OwnLineOptions \ {Opt0}}
+       \cup {[kinds |-> <<"block">>, layout |-> lay, opt |-> o] : lay \in {"semi-before", "semi-after"},
+                                                                   o \in {x \in OwnLineOptions : ~x.stripSemicolons}}
 Singles(nested) == {[gaps |-> <<g>>, kinds |-> c.kinds, layout |-> c.layout, opt |-> c.opt] : g \in 0..GapMax, c \in Combos(nested)}
 Pairs == {[gaps |-> <<i, j>>, kinds |-> ks, layout |-> "inline", opt |-> Opt0] :
             i \in 0..PairGapMax, j \in 0..PairGapMax, ks \in {<<"block", "block">>, <<"line", "block">>}}
